@@ -71,6 +71,13 @@ def gen_case(rng, root, gpg, case_no=None):
         if rng.random() < 0.9:
             keystore[k.keyid] = k.pub
     signers = list(plain)
+    # an authorised id WITHOUT a key in the layout's key store, and (below) a file under that id signed by another
+    # authorised functionary whose key is there: nobody's signature can be checked for that id - the file cannot count
+    orphan = None
+    if case_no is not None and case_no % 5 == 3 and len(plain) >= 2:
+        orphan, _b = plain[-1], plain[0]
+        keystore.pop(orphan.keyid, None)
+        keystore[_b.keyid] = _b.pub
     if gpg:
         mode = rng.choice(["master2", "master1", "master0", "subonly", "subonly_plus_master_elsewhere", "expired"])
         desc["gpg_mode"] = mode
@@ -137,6 +144,12 @@ def gen_case(rng, root, gpg, case_no=None):
                                     signer=signer, kid=kid, tamper=tamper))
         desc["files"].append({"name_kid": kid[:8], "signer": signer.keyid[:8], "signer_kind": signer.kind,
                               "tamper": tamper, "fmt": fmt, "wrong_name": wrong_name, "counts_for": main if good else None})
+    if orphan is not None and orphan.keyid[:8] not in used_names:
+        used_names.add(orphan.keyid[:8])
+        fmt = rng.choice(["metablock", "dsse"])
+        links.append(scen.link_spec(plain[0], fmt, step["name"], step["materials"], bad_products, signer=plain[0], kid=orphan.keyid, tamper=None))
+        desc["files"].append({"name_kid": orphan.keyid[:8], "signer": plain[0].keyid[:8], "signer_kind": plain[0].kind, "tamper": None,
+                              "fmt": fmt, "wrong_name": False, "counts_for": None, "authorised_id_without_key": True})
     if gpg and rng.random() < 0.6:
         # an ENVELOPE lying under the id of an authorised gpg key (or of one of its subkeys): gpg keys cannot check
         # envelopes, the file cannot count - and, like any file that does not count, it decides nothing
